@@ -24,8 +24,10 @@ structure Prog where
   siteFile    : String := ""
   siteLines   : List Nat := []
   rep         : Option (Option Nat) := none
-  verbose     : Bool := false
+  verbosity   : Nat := 0              -- bit 0: -v, bit 1: -vv
   runIgnored  : Bool := false
+  color       : Bool := false
+  rethrow     : Bool := false
   groupFilters : List Filter := []
   nameFilters  : List Filter := []
   plugins     : List Plugin := []              -- in op order; the chain is the reverse
@@ -43,10 +45,18 @@ def hexOfStr (s : String) : String := Proto.hex s.toUTF8.toList
 def stdExcText : String := "Unexpected exception of type 'std::runtime_error' was thrown: boom"
 def otherExcText : String := "Unexpected exception of unknown type was thrown."
 
-def Prog.cfg (p : Prog) : Cfg :=
-  { exceptions := p.exc, rethrow := false, verbose := p.verbose, runIgnored := p.runIgnored,
+/-- `clock` = the readings of the clock seam, taken from the implementation's observation lines
+    (an environment input) -/
+def Prog.cfg (p : Prog) (clock : List Nat) : Cfg :=
+  { exceptions := p.exc, rethrow := p.rethrow, verbose := p.verbosity % 2 == 1, veryVerbose := p.verbosity / 2 % 2 == 1,
+    color := p.color, runIgnored := p.runIgnored,
     groupFilters := p.groupFilters, nameFilters := p.nameFilters,
-    stdExcMsg := stdExcText, otherExcMsg := otherExcText }
+    stdExcMsg := stdExcText, otherExcMsg := otherExcText, clock := clock }
+
+def clockOfObs (obs : List (List String)) : List Nat :=
+  obs.filterMap fun l => match l with
+    | ["clock", v] => v.toNat?
+    | _ => none
 
 def Prog.chain (p : Prog) : List Plugin := p.plugins.reverse
 
@@ -68,6 +78,11 @@ def stmtOf (p : Prog) (t : Test) : List String → Option Stmt
   | ["checkplain"] => some (.failCpp (siteLoc p 1) "CHECK(false) failed")
   | ["failcplain"] => some (.failC (siteLoc p 2) "failcplain")
   | ["checkcplain"] => some (.failC (siteLoc p 3) "CHECK_C(0) failed")
+  | ["failtest", f, l] => some (.failCpp ⟨fileOf t f, l.toNat?.getD 0⟩ "failtest")
+  | ["failtestplain"] => some (.failCpp (siteLoc p 4) "failtestplain")
+  | ["shellfail", f, l] => some (.failCpp ⟨fileOf t f, l.toNat?.getD 0⟩ "shellfail")
+  | ["shellfailc", f, l] => some (.failC ⟨fileOf t f, l.toNat?.getD 0⟩ "shellfailc")
+  | ["exitc"] => some .exitTestC
   | ["throwstd"] => some .throwStd
   | ["throwother"] => some .throwOther
   | ["exit"] => some .exitTest
@@ -94,12 +109,13 @@ def repOf (w : String) : Option (Option Nat) :=
     operation lines and the two environment lines of `cfg`) -/
 def applyOp (p : Prog) (op : List String) (obs : List (List String)) : Prog :=
   match op with
-  | ["cfg", rep, v, ri] =>
+  | ["cfg", rep, v, ri, col, rt] =>
     let exc := !(obs.any (· == ["variant", "noexc"]))
     let sites := obs.filterMap fun l => match l with
-      | ["sites", f, a, b, c, d] => some (strOfHex f, [a, b, c, d].map (·.toNat?.getD 0))
+      | ["sites", f, a, b, c, d, e] => some (strOfHex f, [a, b, c, d, e].map (·.toNat?.getD 0))
       | _ => none
-    { p with haveCfg := true, exc := exc, rep := repOf rep, verbose := v == "1", runIgnored := ri == "1",
+    { p with haveCfg := true, exc := exc, rep := repOf rep, verbosity := v.toNat?.getD 0, runIgnored := ri == "1",
+             color := col == "1", rethrow := rt == "1",
              siteFile := (sites.head?.map (·.1)).getD "", siteLines := (sites.head?.map (·.2)).getD [] }
   | ["filter", k, text] =>
     if k = "sg" then { p with groupFilters := ⟨text, false⟩ :: p.groupFilters }
@@ -137,31 +153,38 @@ def curName : Option String → String
 
 def tokLine (s : String) : String := "t " ++ hexOfStr s
 
-def renderEv : Ev → List String
+def renderEv (color : Bool) : Ev → List String
   | .tok s => [tokLine s]
+  | .clock v => [s!"clock {v}"]
   | .enter ph d => [s!"enter {phaseName ph} {d}"]
   | .mark ph n d => [s!"mark {phaseName ph} {n} {d}"]
   | .plug name post d => [s!"plug {name} {if post then "post" else "pre"} {d}"]
   | .failure r => (failureToks r).map tokLine
   | .ended d c f => [s!"ended {d} {curName c} {if f then 1 else 0}"]
-  | .summary r => (summaryToks r).map tokLine
+  | .summary r time => (summaryToks color r time).map tokLine
   | .ret v => [s!"ret {v}"]
 
 def faultText : Fault → String
   | .jmpIndex i => s!"jmp_buf index {i} outside the array"
   | .wrongFrame => "longjmp to a buffer that is not the innermost frame"
-  | .rethrown => "exception rethrown"
   | .uncaught => "uncaught exception"
 
-def modelRun (p : Prog) : List String :=
-  match runAllTests p.cfg p.chain p.testList (repeatCountOf p.rep) 0 with
-  | .error f => ["model-fault " ++ faultText f]
-  | .ok o => o.evs.flatMap renderEv ++ [s!"final {o.depth} {curName o.current}"]
+def kindName : ExcKind → String
+  | .failed => "failed"
+  | .std => "std"
+  | .other => "other"
+
+def modelRun (p : Prog) (clock : List Nat) : List String :=
+  match runAllTests (p.cfg clock) p.chain p.testList (repeatCountOf p.rep) 0 with
+  | .error (.fault f) => ["model-fault " ++ faultText f]
+  | .error (.propagated q) =>
+    q.evs.flatMap (renderEv p.color) ++ [s!"propagated {kindName q.kind}", s!"final {q.depth} {curName q.current}"]
+  | .ok o => o.evs.flatMap (renderEv p.color) ++ [s!"final {o.depth} {curName o.current}"]
 
 def modelStep (p : Prog) (op : List String) (obs : List (List String)) : Prog × List String :=
   match op with
-  | ["run"] => (p, modelRun p)
-  | ["cfg", _, _, _] =>
+  | ["run"] => (p, modelRun p (clockOfObs obs))
+  | ["cfg", _, _, _, _, _] =>
     -- the two environment lines are inputs: echo them
     (applyOp p op obs, obs.filterMap fun l => match l with
       | "variant" :: _ => some (" ".intercalate l)
@@ -176,7 +199,9 @@ inductive Item
   | enter (ph : String)
   | mark (ph : String) (n : Nat)
   | ended (depth : Int) (cur : String) (failed : Bool)
+  | clock (v : Nat)
   | ret (v : Int)
+  | propagated (kind : String)
   | final (depth : Int) (cur : String)
   | crash (what : String)
   | other
@@ -187,7 +212,9 @@ def itemOf : List String → Item
   | ["enter", ph, _] => .enter ph
   | ["mark", ph, n, _] => .mark ph (n.toNat?.getD 0)
   | ["ended", d, c, f] => .ended (d.toInt?.getD (-999)) c (f == "1")
+  | ["clock", v] => .clock (v.toNat?.getD 0)
   | ["ret", v] => .ret (v.toInt?.getD (-999))
+  | ["propagated", k] => .propagated k
   | ["final", d, c] => .final (d.toInt?.getD (-999)) c
   | "crash" :: rest => .crash (" ".intercalate rest)
   | _ => .other
@@ -240,17 +267,71 @@ def judgeTest (cfg : Cfg) (chain : List Plugin) (t : Test) (seg : List Item) (e 
 def showSummary (s : PrintedSummary) : String :=
   (if s.ok then "OK" else "Errors") ++ s!" (failures {s.failures.getD "-"}, {s.tests} tests, {s.ran} ran, {s.checks} checks, {s.ignored} ignored, {s.filtered} filtered out)"
 
+/-- the elapsed time every summary must show: last clock reading before it minus the first reading
+    of its repetition (unsigned 64-bit) -/
+def expectedTimes (items : List Item) : List String := Id.run do
+  let mut out : Array String := #[]
+  let mut first : Option Nat := none
+  let mut last : Nat := 0
+  for it in items do
+    match it with
+    | .clock v =>
+      if first.isNone then first := some v
+      last := v
+    | .tok s =>
+      if s == "OK (" || s == "Errors (" then
+        out := out.push (toString (elapsed last (first.getD 0)))
+        first := none
+    | _ => pure ()
+  return out.toList
+
+/-- rethrow mode, a selected test lets a std / foreign exception out: the run must end there -/
+def judgePropagation (cfg : Cfg) (chain : List Plugin) (sel : List Test) (k : Nat) (items : List Item) :
+    Option String := Id.run do
+  let (segs, tail) := splitEnded items [] []
+  let t := sel.getD k default
+  let who := formattedName cfg t
+  let some (ph, kind) := firstThrow cfg t | return some "internal: no throwing phase"
+  if segs.length != k then
+    return some s!"rethrow mode: {segs.length} tests completed before the exception of {who} left the run, {k} precede it"
+  let mut i := 0
+  for (seg, e) in segs do
+    if let some why := judgeTest cfg chain (sel.getD i default) seg e then return some s!"rethrow mode: {why}"
+    i := i + 1
+  let wantEnters := (phasesUpTo cfg t ph).map phaseName
+  let wantMarks := (marksUpTo cfg t ph).map fun (q, n) => (phaseName q, n)
+  let wantFails := (failuresUpTo cfg chain t ph).map FailRec.printed
+  let gotFails := scanFailures (toksOfItems tail)
+  if entersOfItems tail != wantEnters then
+    return some s!"rethrow mode, {who}: phases entered {showList (entersOfItems tail)}, expected {showList wantEnters} (nothing runs after the exception left the test)"
+  if marksOfItems tail != wantMarks then
+    return some s!"rethrow mode, {who}: statements executed {showList ((marksOfItems tail).map fun (p, n) => s!"{p}:{n}")}, expected {showList (wantMarks.map fun (p, n) => s!"{p}:{n}")}"
+  if gotFails != wantFails then
+    return some s!"rethrow mode, {who}: printed failure records {showList (gotFails.map showPrinted)}, failing events until the exception left are {showList (wantFails.map showPrinted)}"
+  let props := items.filterMap fun | .propagated q => some q | _ => none
+  let rets := items.filterMap fun | .ret v => some v | _ => none
+  if props != [kindName kind] then
+    return some s!"rethrow mode, {who}: exception(s) that left the runner: {showList props}, expected [{kindName kind}]"
+  if !rets.isEmpty then return some "rethrow mode: the runner returned a value although an exception left it"
+  if !(scanSummaries (toksOfItems items)).isEmpty then return some "rethrow mode: a summary was printed although an exception left the run"
+  return none
+
 def judgeRun (p : Prog) (obs : List (List String)) : Option String := Id.run do
-  let cfg := p.cfg
+  let cfg := p.cfg (clockOfObs obs)
   let chain := p.chain
   let tests := p.testList
   let n := repeatCountOf p.rep
   let items := obs.map itemOf
   for it in items do
     if let .crash w := it then return some s!"the runner crashed: {w}"
-  let (segs, tail) := splitEnded items [] []
   let sel := selected cfg tests
   let m := sel.length
+  if cfg.rethrow && cfg.exceptions then
+    if let some k := sel.findIdx? (fun t => willRun cfg t && (firstThrow cfg t).isSome) then
+      return judgePropagation cfg chain sel k items
+  if items.any (fun | .propagated _ => true | _ => false) then
+    return some "an exception left the runner although no test lets one out in rethrow mode"
+  let (segs, tail) := splitEnded items [] []
   if segs.length != n * m then
     return some s!"{segs.length} tests were run or skipped as ignored; {n} repetition(s) of {m} selected tests demand {n * m}"
   -- every test segment
@@ -268,12 +349,14 @@ def judgeRun (p : Prog) (obs : List (List String)) : Option String := Id.run do
     return some "statements executed or failures printed after the last test ended"
   -- summaries
   let sums := scanSummaries (toksOfItems items)
-  let want := (expectedCounts cfg chain tests).printedSummary
+  let want := (expectedCounts cfg chain tests).printedSummary 0
   if sums.length != n then
     return some s!"{sums.length} summary lines printed for {n} repetition(s)"
   for s in sums do
-    if s != want then
+    if { s with time := want.time } != want then
       return some s!"summary printed: {showSummary s}; true counts: {showSummary want} (OK exactly when no failure and at least one test ran or was ignored)"
+  if sums.map (·.time) != expectedTimes items then
+    return some s!"summary times printed {showList (sums.map (·.time))}, the clock readings give {showList (expectedTimes items)}"
   -- return value
   let rets := items.filterMap fun | .ret v => some v | _ => none
   let finals := items.filterMap fun | .final d c => some (d, c) | _ => none
